@@ -111,6 +111,10 @@ impl PaddingFactory {
                 if min_val <= 0 || max_val <= 0 {
                     continue;
                 }
+                // Sizes are carried as i32; a value that does not fit is invalid
+                if min_val > i32::MAX as i64 || max_val > i32::MAX as i64 {
+                    continue;
+                }
 
                 let (min_val, max_val) = (min_val.min(max_val), min_val.max(max_val));
 
